@@ -7,11 +7,27 @@ package main
 //   l2it <fwd|rev|many> i x   creates the iterator exactly like `it` / `rit` / `mit`      -> "ok <repr32(x)>"
 //   l2reinit i x              re-Initializes the SAME iterator object on bitmap x (like `reinit`, kinds fwd|rev|many)
 //                                                                                          -> "ok <repr32(x)>"
+//   l2it unset i x lo hi      creates the unset iterator over [lo,hi) exactly like `uit`     -> "ok <repr32(x)>"
+//   l2reinit i x lo hi        (kind unset) re-Initializes the same unsetIterator object      -> "ok <repr32(x)>"
+//   l2it64 <fwd|rev|many> i x creates the roaring64 iterator exactly like `it64`/`rit64`/`mit64` -> "ok <repr64(x)>"
+//   l2reit64 i x              re-Initializes the SAME roaring64 iterator object (like `reit64`)  -> "ok <repr64(x)>"
+//   l2iterate x k             x.Iterate(cb) where cb records every value it is handed and answers false on its
+//                             k-th call (k = -1: never; k = 0 like k = 1)
+//                                                         -> "<repr32(x)> <renderVals of the values seen>"
+//                             (renderVals = "<n> <digest>" for a strictly ascending sequence, "unord .." otherwise)
+//   l2seq <values|backward|unset> x k [lo hi]   the range-over-func forms with the same recording yield function
+//                                                         -> "<repr32(x)> <renderVals of the values seen>"
+//   l2ranges x k              x.Ranges()(yield), same recording yield      -> "<repr32(x)> <pairs as `ranges` prints them>"
+// The 64-bit iterator commands (hasnext64 / next64 / peek64 / adv64 / many64 / drain64) are the ones of r64.go.
 // All other iterator commands (hasnext / next? / next! / peek? / peek! / adv / advrel / many / manyhs / drain) are the
 // ones of iter.go; the checker steps its L2 state with each of them and requires the model's answer to be the Go answer.
 
 import (
+	"fmt"
+	"strings"
+
 	roaring "github.com/RoaringBitmap/roaring/v2"
+	"github.com/RoaringBitmap/roaring/v2/roaring64"
 )
 
 func init() {
@@ -19,6 +35,17 @@ func init() {
 		need(a, 3)
 		kind := a[0]
 		x := e.b(a[2])
+		if kind == "unset" {
+			need(a, 5)
+			lo, hi := u64(a[3]), u64(a[4])
+			s := &iterState{kind: "unset", bm: x}
+			s.pk = x.UnsetIterator(lo, hi) // panics for hi > 2^32
+			s.it = s.pk
+			s.snap = complementIn(ivs32(x), lo, hi)
+			s.cur = 0
+			e.its[a[1]] = s
+			return "ok " + repr32(x)
+		}
 		s := &iterState{kind: kind, bm: x, snap: ivs32(x)}
 		switch kind {
 		case "fwd":
@@ -49,11 +76,174 @@ func init() {
 		case "many":
 			s.many.(*roaring.ManyIntIterator).Initialize(x)
 			s.cur = 0
+		case "unset":
+			need(a, 4)
+			lo, hi := u64(a[2]), u64(a[3])
+			s.pk.(interface {
+				Initialize(*roaring.Bitmap, uint64, uint64)
+			}).Initialize(x, lo, hi)
+			s.bm = x
+			s.snap = complementIn(ivs32(x), lo, hi)
+			s.cur = 0
+			return "ok " + repr32(x)
 		default:
 			panic(skipErr{"kind"})
 		}
 		s.bm = x
 		s.snap = ivs32(x)
 		return "ok " + repr32(x)
+	})
+	reg("l2it64", func(e *env, a []string) string {
+		need(a, 3)
+		x := e.b64(a[2])
+		switch a[0] {
+		case "fwd":
+			its64[a[1]] = &iter64{kind: "fwd", fwd: x.Iterator()}
+		case "rev":
+			its64[a[1]] = &iter64{kind: "rev", rev: x.ReverseIterator()}
+		case "many":
+			its64[a[1]] = &iter64{kind: "many", many: x.ManyIterator()}
+		default:
+			panic(skipErr{"unknown iterator kind " + a[0]})
+		}
+		return "ok " + repr64(x)
+	})
+	reg("l2reit64", func(e *env, a []string) string {
+		need(a, 2)
+		it := it64of(a[0])
+		x := e.b64(a[1])
+		switch it.kind {
+		case "fwd":
+			p, ok := it.fwd.(*roaring64.IntIterator64)
+			if !ok {
+				return "err:type"
+			}
+			p.Initialize(x)
+		case "rev":
+			p, ok := it.rev.(*roaring64.IntReverseIterator64)
+			if !ok {
+				return "err:type"
+			}
+			p.Initialize(x)
+		case "many":
+			p, ok := it.many.(*roaring64.ManyIntIterator64)
+			if !ok {
+				return "err:type"
+			}
+			p.Initialize(x)
+		}
+		return "ok " + repr64(x)
+	})
+	// l2seq <values|backward|unset> x k [lo hi] : the range-over-func forms roaring.Values / Backward / Unset(x, lo, hi-1)
+	// with the same recording yield function as l2iterate (window [lo,hi), 0 <= lo < hi <= 2^32)
+	reg("l2seq", func(e *env, a []string) string {
+		need(a, 3)
+		x := e.b(a[1])
+		k := kArg(a[2])
+		var vals []uint32
+		overrun, stopped := false, false
+		yield := func(v uint32) bool {
+			if stopped {
+				overrun = true
+				return false
+			}
+			vals = append(vals, v)
+			if len(vals) > maxDrain {
+				panic("toolong")
+			}
+			if k >= 0 && int64(len(vals)) >= k {
+				stopped = true
+				return false
+			}
+			return true
+		}
+		rep := repr32(x)
+		switch a[0] {
+		case "values":
+			roaring.Values(x)(yield)
+		case "backward":
+			roaring.Backward(x)(yield)
+		case "unset":
+			need(a, 5)
+			lo, hi := u64(a[3]), u64(a[4])
+			if !(lo < hi && hi <= 1<<32) {
+				panic(skipErr{"window"})
+			}
+			roaring.Unset(x, uint32(lo), uint32(hi-1))(yield)
+		default:
+			panic(skipErr{"unknown l2seq " + a[0]})
+		}
+		if overrun {
+			return rep + " overrun"
+		}
+		return rep + " " + renderVals(vals, a[0] == "backward")
+	})
+	// l2ranges x k : x.Ranges()(yield) with the recording yield function (false on its k-th call); the pairs are rendered
+	// one by one as the `ranges` command does: "lo-hi" (inclusive), "v", "bad:s:end"; "-" when nothing was yielded
+	reg("l2ranges", func(e *env, a []string) string {
+		need(a, 2)
+		x := e.b(a[0])
+		k := kArg(a[1])
+		var sb strings.Builder
+		n := int64(0)
+		overrun, stopped := false, false
+		rep := repr32(x)
+		x.Ranges()(func(s uint32, end uint64) bool {
+			if stopped {
+				overrun = true
+				return false
+			}
+			if n > 0 {
+				sb.WriteByte(',')
+			}
+			switch {
+			case end <= uint64(s) || end > 1<<32:
+				fmt.Fprintf(&sb, "bad:%d:%d", s, end)
+			case end == uint64(s)+1:
+				fmt.Fprintf(&sb, "%d", s)
+			default:
+				fmt.Fprintf(&sb, "%d-%d", s, end-1)
+			}
+			n++
+			if k >= 0 && n >= k {
+				stopped = true
+				return false
+			}
+			return true
+		})
+		if overrun {
+			return rep + " overrun"
+		}
+		if n == 0 {
+			return rep + " -"
+		}
+		return rep + " " + sb.String()
+	})
+	reg("l2iterate", func(e *env, a []string) string {
+		need(a, 2)
+		x := e.b(a[0])
+		k := kArg(a[1])
+		var vals []uint32
+		overrun, stopped := false, false
+		rep := repr32(x)
+		x.Iterate(func(v uint32) bool {
+			if stopped {
+				overrun = true
+				return false
+			}
+			vals = append(vals, v)
+			if len(vals) > maxDrain {
+				panic("toolong")
+			}
+			if k >= 0 && int64(len(vals)) >= k {
+				stopped = true
+				return false
+			}
+			return true
+		})
+		if overrun {
+			return rep + " overrun"
+		}
+		return rep + " " + renderVals(vals, false)
 	})
 }
